@@ -3,7 +3,9 @@
 E2 enumeration on the real efuns with an interposed libc file layer (env/fs.c):
   part legal   : legal_path() against a reference on all 1 398 101 strings of length <= 10 over {a . / #}
   part paths   : 52 ops x all path strings of length <= 5 (quick) / 7 (thorough) over {a . / #}, each also behind a
-                 1100-character component, x {deny, allow} for valid_read and valid_write independently
+                 1100-character component, x {deny, allow} for valid_read and valid_write independently; run on an
+                 uninstrumented build of the same harness, and to length 4 / 5 on the sanitizer build
+  part faults  : every op x 7 paths x each of its first 20 libc calls failing (EIO; EXDEV on rename; EXDEV then EIO)
   part rewrite : the 43 mediated ops x master answers "rewrite to p'" for all p' of length <= 3 / 4
                  (both applies / only valid_read / only valid_write rewritten) x 3 input paths
 plus two static inventories taken from the object files of the tree being checked:
@@ -40,8 +42,11 @@ NOT_REACHABLE_FROM_LPC = {
 
 def build(ck):
     exe = ck.harness("h_c15", SRC, wraps=vlib.STD_WRAPS + FS_WRAPS)
+    # the same harness without sanitizer instrumentation (about 6x faster): the path oracle does not need ASan, so the
+    # large bound runs on this one and the sanitizer build runs a smaller bound
+    exep = ck.harness("h_c15p", SRC, profile="plain", wraps=vlib.STD_WRAPS + FS_WRAPS)
     inventory(exe)          # (re)writes build/out/C15-inventory.txt for the tree just built, so a replay sees the current facts
-    return {"h_c15": exe}
+    return {"h_c15": exe, "h_c15p": exep}
 
 
 def _objects():
@@ -187,8 +192,10 @@ RULE = ("every op of {read_file(1,3 args), write_file(append, overwrite), read_b
         "the documented normalisation, never absolute, no '..' component; legal_path() == reference on all strings of length <= 10")
 
 
-def _run_parts(ck, exe, L, R, deadline):
+def _run_parts(ck, exes, La, Lp, R, deadline):
+    """La: path length bound on the sanitizer build, Lp: on the plain build"""
     out = vlib.OUT
+    exe, exep = exes["h_c15"], exes["h_c15p"]
     def sf(tag):
         p = os.path.join(out, "C15-%s.sites" % tag)
         if os.path.exists(p):
@@ -197,7 +204,8 @@ def _run_parts(ck, exe, L, R, deadline):
     ck.enum(exe, ["--part=legal", sf("legal")], "legal", batch=8, deadline_s=deadline)
     ck.enum(exe, ["--part=rewrite", "--rlen=%d" % R, sf("rewrite")], "rewrite", batch=500, deadline_s=deadline, timeout_ms=30000)
     ck.enum(exe, ["--part=faults", sf("faults")], "faults", batch=200, deadline_s=deadline, timeout_ms=30000)
-    ck.enum(exe, ["--part=paths", "--len=%d" % L, sf("paths")], "paths", batch=500, deadline_s=deadline, timeout_ms=30000)
+    ck.enum(exe, ["--part=paths", "--len=%d" % La, sf("paths")], "paths-asan", batch=500, deadline_s=deadline, timeout_ms=30000)
+    ck.enum(exep, ["--part=paths", "--len=%d" % Lp], "paths", batch=1000, deadline_s=deadline, timeout_ms=30000)
 
 
 def sweep_shm():
@@ -229,13 +237,13 @@ def finish(ck, notes):
 
 def run(ck):
     sweep_shm()
-    exe = build(ck)["h_c15"]
+    exes = build(ck)
     if ck.tier == "quick":
-        _run_parts(ck, exe, 5, 3, 200)
+        _run_parts(ck, exes, 4, 5, 3, 200)
     else:
-        _run_parts(ck, exe, 7, 4, 2000)
-    finds, notes = inventory(exe) if not ck.broken else ({}, {})
-    ck.enum(exe, ["--part=inventory", "--inv=" + INV_FILE], "inventory", batch=1)
+        _run_parts(ck, exes, 5, 7, 4, 2000)
+    finds, notes = inventory(exes["h_c15"]) if not ck.broken else ({}, {})
+    ck.enum(exes["h_c15"], ["--part=inventory", "--inv=" + INV_FILE], "inventory", batch=1)
     sweep_shm()
     finish(ck, notes)
 
